@@ -40,7 +40,7 @@ type c17Op struct {
 
 func TestC17(t *testing.T) {
 	r, e := start(t, "C17",
-		"random histories (<= 12 operations quick, <= 30 thorough) of write(p,s), write(p,s,false), write(p,s,true) (the flag spelled as a literal, a variable, a comparison or exists(p) where that has the wanted value), read(p) (only where the model says p exists; also two reads in one statement: printed together, compared, concatenated) and exists(p) over 2-4 paths drawn from {plain, sub-directory, blank, double blank, leading dash, the names -, -n and --, ;, *, $, ', leading blank, &} and contents from {neutral, empty, edge blanks, blank runs, quotes, $, $(cmd), backquote, backslash, glob, -n, tab, shell metacharacters, #, embedded newline, !, %}; the whole history is one generated program (a third of the operations wrapped in a construct that runs them once: taken branch, else branch, one-pass loop, switch case, branch inside a loop), values literal or held in variables read from stdin, written plainly or as a call result, a parenthesised expression, a concatenation or a slice element, half the time executed inside a function with paths/contents as parameters; a third of the operations are performed by small helper functions (hwrite, hread, ...) called from the history instead of directly; a sixth of the steps are triples 'observe p (read/exists), a helper FUNCTION writes p, observe p again' in one straight-line block. Oracle: model map[path][]line: file bytes = lines joined by newline + newline, read = lines joined, exists = key present; the sandbox afterwards holds exactly the model's files. Non-trivial = append after overwrite after append on one path, or >= 2 paths with a non-plain path or content; distinct by history.",
+		"random histories (<= 12 operations quick, <= 30 thorough) of write(p,s), write(p,s,false), write(p,s,true) (the flag spelled as a literal, a variable, a comparison or exists(p) where that has the wanted value), read(p) (only where the model says p exists; also two reads in one statement: printed together, compared, concatenated), write(p, read(q)[, true|false]) with the data taken directly from a read of another existing file or of p itself and exists(p) over 2-4 paths drawn from {plain, sub-directory, blank, double blank, leading dash, the names -, -n and --, ;, *, $, ', leading blank, &} and contents from {neutral, empty, edge blanks, blank runs, quotes, $, $(cmd), backquote, backslash, glob, -n, tab, shell metacharacters, #, embedded newline, !, %}; the whole history is one generated program (a third of the operations wrapped in a construct that runs them once: taken branch, else branch, one-pass loop, switch case, branch inside a loop), values literal or held in variables read from stdin, written plainly or as a call result, a parenthesised expression, a concatenation or a slice element, half the time executed inside a function with paths/contents as parameters; a third of the operations are performed by small helper functions (hwrite, hread, ...) called from the history instead of directly; a sixth of the steps are triples 'observe p (read/exists), a helper FUNCTION writes p, observe p again' in one straight-line block. Oracle: model map[path][]line: file bytes = lines joined by newline + newline, read = lines joined, exists = key present; the sandbox afterwards holds exactly the model's files. Non-trivial = append after overwrite after append on one path, or >= 2 paths with a non-plain path or content; distinct by history.",
 		[]string{"reading a missing file is outside the statement (never generated)", "contents ending in a newline are not generated (read strips trailing newlines by definition)", "values containing $, backquote, double quote or backslash are supplied at run time through input(): as source literals they fall under the listed C08 finding"})
 	defer r.Flush()
 	maxOps := e.Pick(12, 30)
@@ -98,6 +98,16 @@ func TestC17(t *testing.T) {
 				// two reads alive in one statement (the second path: any other existing file, else the same one)
 				kinds = append(kinds, "read-two")
 			}
+			// a file written with what read() returns, directly as the data argument: from another file or from the file itself
+			anyExisting := []int{}
+			for _, q := range pool {
+				if _, ok := model[c17Paths[q].p]; ok {
+					anyExisting = append(anyExisting, q)
+				}
+			}
+			if len(anyExisting) > 0 {
+				kinds = append(kinds, "write-from-read")
+			}
 			k := kinds[gen.Uniform(0, len(kinds)-1).Draw(t, "op-kind")]
 			op := c17Op{kind: k, path: p, content: gen.Uniform(0, len(c17Contents)-1).Draw(t, "content"), flag: gen.Uniform(0, 3).Draw(t, "flag-spelling")}
 			if k == "read-two" {
@@ -113,9 +123,23 @@ func TestC17(t *testing.T) {
 				}
 				op.flag = gen.Uniform(0, 2).Draw(t, "read-two-form")
 			}
+			if k == "write-from-read" {
+				op.path2 = anyExisting[gen.Uniform(0, len(anyExisting)-1).Draw(t, "source-path")]
+				if _, ok := model[c17Paths[p].p]; ok && gen.Uniform(0, 1).Draw(t, "source-is-destination") == 1 {
+					op.path2 = p
+				}
+				op.flag = gen.Uniform(0, 2).Draw(t, "copy-form") // 0 write, 1 append, 2 write with false
+			}
 			ops = append(ops, op)
 			path := c17Paths[p].p
 			switch k {
+			case "write-from-read":
+				src := append([]string{}, model[c17Paths[op.path2].p]...)
+				if op.flag == 1 {
+					model[path] = append(append([]string{}, model[path]...), src...)
+				} else {
+					model[path] = src
+				}
 			case "write", "overwrite-false":
 				model[path] = []string{c17Contents[op.content].s}
 			case "append":
@@ -254,6 +278,29 @@ func TestC17(t *testing.T) {
 					body.WriteString("write(" + pe + ", " + ce + ", " + flagExpr(op, true, pe) + ")\n")
 				}
 				cur[path] = append(cur[path], c17Contents[op.content].s)
+			case "write-from-read":
+				path2 := c17Paths[op.path2].p
+				pe2 := dress(&body, valueRef("p", op.path2, path2))
+				src := append([]string{}, cur[path2]...)
+				r.Class("write-from-read")
+				if path2 == path {
+					r.Class("write-from-read:same-file")
+				}
+				rd := "read(" + pe2 + ")"
+				if via {
+					rd = "hread(" + pe2 + ")"
+				}
+				switch op.flag {
+				case 0:
+					body.WriteString("write(" + pe + ", " + rd + ")\n")
+					cur[path] = src
+				case 1:
+					body.WriteString("write(" + pe + ", " + rd + ", true)\n")
+					cur[path] = append(append([]string{}, cur[path]...), src...)
+				default:
+					body.WriteString("write(" + pe + ", " + rd + ", false)\n")
+					cur[path] = src
+				}
 			case "read":
 				if via {
 					body.WriteString("print(\"<\" + hread(" + pe + ") + \">\")\n")
